@@ -232,6 +232,30 @@ package at
 //@   ensures decimal-is-kept-exactly: 0 <= i && i < len(result) && upper(tableMeta.Columns[columnNames[i]].DatabaseTypeString) == "DECIMAL" ==> !isT(result[i], *float64) && !isT(result[i], *sql.NullFloat64)
 //@   nopanic
 
+// C01 / C03: the key values of an INSERT with bound parameters. Every row's key value is appended to the
+// slice kept under the key column AND THE SLICE IS STORED BACK: the after image (what rollback deletes)
+// and the lock keys (what the coordinator is asked about) are built from that map, so a row whose key is
+// appended to a slice nobody keeps is a row that survives the rollback unlocked.
+//@ func (*insertExecutor).getPkIndex
+//@   trusted
+//@   ensures true
+//@ func getInsertRows
+//@   trusted
+//@   ensures true
+//@ ext strings.EqualFold
+//@   ensures true
+//@ func (*insertExecutor).parsePkValuesFromStatement
+//@   prop C01 C03
+//@   local pkValuesMap map[string][]interface{}
+//@   loop 1 invariant true
+//@   loop 2 invariant true
+//@   loop 3 invariant true
+//@   loop 4 invariant the-key-values-so-far-are-kept: pkKey != "" ==> len(pkValuesMap[pkKey]) == len(pkValues)
+//@   loop 5 invariant true
+//@   loop 6 invariant true
+//@   loop 7 invariant true
+//@   may_panic
+
 // C01: what the images record. A NULL column is recorded as nil - never as the zero value of its type,
 // which rollback would then write back in place of the NULL - and a present value as itself.
 //@ func getSqlNullValue
